@@ -519,6 +519,23 @@ def batches(ctx):
                                          for i in range(40 if quick else 400)]
 
 
+def fallback_generated():
+    """When the extractor no longer matches the tree under test (a broken tie, reported by ctx.lean) the private Lean copy
+    would keep whatever Generated file it had and the drivers might not build: give it the committed one (valid for /repo) so
+    that the specification driver - the oracle - is current and the violation search can still produce a replay."""
+    import importlib.util, shutil
+    from vlib import lean as L
+    src = os.path.join(VERIF, "lean", "StepModel", "Generated", "GenPyGen.lean")
+    dst = os.path.join(L.GEN_DIR, "GenPyGen.lean")
+    try:
+        spec = importlib.util.spec_from_file_location("x_genpy", os.path.join(VERIF, "tools", "extract.d", "genpy.py"))
+        m = importlib.util.module_from_spec(spec); spec.loader.exec_module(m)
+        m.extract(B.REPO)
+    except Exception:
+        if os.path.abspath(src) != os.path.abspath(dst):
+            shutil.copyfile(src, dst)
+
+
 def run(ctx):
     ctx.trusted += [
         "tools/extract.d/genpy.py (regex extraction of keyword_list[] and the import preamble)",
@@ -528,6 +545,7 @@ def run(ctx):
     ]
     ctx.assumptions += ["single-schema inputs; attribute names unique per schema; identifiers lower case (EXPRESS folds case)",
                         "method bodies (property setters, derived-attribute evaluation, WHERE rules, functions) are outside the model"]
+    fallback_generated()
     proof_ok = ctx.lean("StepModel.Props.C18", exes=["m_c18"], extractors=EXTRACTORS)
     if not os.path.exists(ctx.model_exe("m_c18")):
         return
